@@ -31,8 +31,8 @@ def bound_args(prog: Program, callee_q: str, c: CallRec) -> Dict[str, Tuple[Opti
     """bind the actuals of call record c against the signature of callee_q -> {param: (expr, sources)}"""
     fi = prog.func(callee_q)
     pos = list(fi.pos_params)
-    if fi.cls and not fi.is_static and pos and (c.attr is not None or fi.name == '__init__'):
-        pos = pos[1:]
+    if fi.cls and not fi.is_static and pos and (c.attr is not None or fi.name == '__init__' or fi.is_classmethod):
+        pos = pos[1:]           # self / cls is implicit (a classmethod's cls always is, however the call is spelled)
     out: Dict[str, Tuple[Optional[ast.expr], Tok]] = {}
     i = 0
     for a, (k, v) in zip(c.node.args, [x for x in c.args if isinstance(x[0], int) or x[0] == '*']):
